@@ -23,21 +23,24 @@ the particular functions):
     `i64` is `Int`: `+ - *` and unary `-` -> `<- i64chk (…)`, `%` -> `<- i64rem a b`, casts `usize_as_i64`, `i64_as_usize`
     (the helpers of Impl/Sha3.lean).  `u8` is `UInt8` (`& | ^ !` -> `&&& ||| ^^^ ~~~`, `<<` -> `<- shlU8 a n`, which fails
     for n >= 8).  `u32/u64` are `UInt32/UInt64` words, except where the spec declares a place a *natural word*
-    (the BLAKE2 counters `t[0], t[1]`, `inc`): then `wrapping_add` -> `(a + b) % 2 ^ w`, `as uN` -> `x % 2 ^ w`.
+    (the BLAKE2 counters `t[0], t[1]`, `inc`): then `wrapping_add` -> `(a + b) % 2 ^ w`, `as uN` -> `x % 2 ^ w`,
+    checked `+ *` -> `<- wordchk w (a + b)`, `-` -> `<- usub a b`.
   * evaluation is three-address code in source order: every operation that can panic is its own `let t <- …`.
     (In `Option` the order of two failing operations is not observable.)  `&&`/`||` operands must be panic-free.
   * slices are `Bytes = List UInt8`:  a[i] -> `<- idx a i`;  a[i] = v -> `<- upd a i v`;  a[lo..hi] -> `<- slice a lo hi`;
     a[lo..] -> `<- sliceFrom a lo`;  d[lo..hi].copy_from_slice(s) -> `<- copyInto d lo hi s` (length mismatch = panic);
     `f(&mut a[lo..hi])` -> slice, call, `copyInto` back;  `[0; n]`, `vec::from_elem(0, n)` -> `zeros n`.
-    Fixed arrays of words (`h: [u64; 8]`) are `Vector`s and may only be indexed by literals.
+    Fixed arrays of words (`h: [u64; 8]`) are `Vector`s and may only be indexed by literals; `&h[lo..hi]` -> `<- lslice h.toList lo hi`.
   * `assert!(c)` -> `if ¬ (c) then none else …`;  `panic!(…)` -> `none`;  `if` statements: when a branch can leave the
     enclosing loop/function (`break`, `return`) the continuation is placed in the branches, otherwise the variables
     assigned in the branches are joined (`let j <- if c then … pure (x, y) else … pure (x, y)`).
-  * `for i in lo..hi { … }` -> `forRange (fun i st => …) (hi - lo) lo st` (structural recursion on the trip count);
+  * loop bodies become their own definitions `<fn>_src_for<k>` / `<fn>_src_while<k>` (parameters: the const generics, every
+    variable in scope that the body does not assign, [the index], the tuple `st` of the variables the body assigns):
+    `for i in lo..hi { … }` -> `forRange (<fn>_src_for<k> …) (hi - lo) lo st` (structural recursion on the trip count);
     `for b in a[lo..].iter_mut() { *b = e }` -> `sliceFrom` + `List.mapM` + write back;
-    `while c { … break … }` -> `whileLoop (fun st => … pure (st', continue?)) fuel st` — structural recursion on FUEL, the
-    fuel expression is given by the kernel spec (a bound on the trip count, +1); running out of fuel is `none`, so a
-    wrong fuel makes the tie theorem fail, never pass.  The loop state `st` is the tuple of the variables the body assigns.
+    `while c { … break … }` -> `whileLoop (<fn>_src_while<k> …) fuel st`, the body returns `(st', continue?)` — structural
+    recursion on FUEL, the fuel expression is given by the kernel spec (a bound on the trip count, +1); running out of
+    fuel is `none`, so a wrong fuel makes the tie theorem fail, never pass.
   * calls: functions translated by this module are called as `<- f_src generics self args` (signatures are parsed from the
     source; results are re-bound to `self` / the `&mut` places); primitives of other modules are named by the spec
     (`keccak_f`, `Engine::compress` -> the model function that the kernel ties prove equal to the source,
@@ -46,8 +49,17 @@ the particular functions):
     the metavariables are substituted by the names given in the spec (`$digestlength` -> `DIGESTLEN`); the macro
     INVOCATIONS (28/32/48/64 …) are covered by the extracted tables (`SHA3_VARIANTS`).
   * `kind="const"`: `const NAME: T = expr;` of an impl block -> `def NAME_src : Nat`.
-  * `kind="struct"`: the struct definition must be token-identical to the text the spec expects (the field list and
-    types the state mapping was written for) — otherwise TranslateError.
+  * `kind="struct"`: the struct definition (or `use` line naming the primitives / the `EngineB as Engine` alias) must be
+    token-identical to the text the spec expects (the field list and types the state mapping was written for) —
+    otherwise TranslateError; the generated `…_struct_src : Unit` is referenced by a tie theorem, so the failure stub
+    (of another type) breaks the build as well.
+  * `assert!(a && b)` is `assert!(a); assert!(b)` (so that `b` may contain checked arithmetic).
+  * supported statements: `let [mut] x [: T] = e;` (also `let x = if c { …; a } else { …; b };`), assignment and compound
+    assignment to variables / fields / `a[i]` / `*b`, `if`/`else if`/`else`, `while`, `for` (the two forms above), `break`,
+    `return [e];`, expression statements (calls, `copy_from_slice`, `assert!`, `panic!`), the trailing expression;
+    expressions: literals, paths, const generics, fields, indexing / slicing, `&`/`&mut`/`*`, `as` (usize<->i64, usize->uN),
+    `! -` unary, `+ - * / % & | ^ << >> == != < > <= >= && ||`, `.len() .is_empty() .wrapping_add()`, calls (turbofish
+    const arguments are passed on), `if` expressions with panic-free branches, `[v; n]`, `&[]`, struct literals `Self { … }`.
 
 Anything else raises TranslateError (-> reported as a broken extraction, the tie theorem then fails): closures,
 `match`, `loop`, `continue`, references stored in variables, `cfg` attributes inside a translated body, non-literal
@@ -68,7 +80,7 @@ LEAN_RESERVED = {"at", "from", "end", "open", "show", "have", "fun", "then", "el
                  "obtain", "set_option", "attribute",
                  # globals used by the generated code
                  "zeros", "idx", "upd", "slice", "sliceFrom", "copyInto", "min", "usub", "udiv", "urem", "usizechk",
-                 "i64chk", "i64rem", "shlU8", "forRange", "whileLoop", "some", "none", "pure", "st", "j", "b", "s"}
+                 "i64chk", "i64rem", "shlU8", "wordchk", "lslice", "forRange", "whileLoop", "some", "none", "pure", "st", "j", "b", "s"}
 WORDS = {"u8": "UInt8", "u32": "UInt32", "u64": "UInt64"}
 BITS = {"u8": 8, "u32": 32, "u64": 64}
 
@@ -174,6 +186,11 @@ class PG(P):
             return self.expr()
         finally:
             self.nostruct -= 1
+
+    def expr(self, lvl=0):
+        if lvl == 0 and self.at("..") and self.peek(1)[1] in ("]", ")"):       # a[..]
+            self.eat(); return ("range", None, None)
+        return super().expr(lvl)
 
     def ty(self):
         if self.at("&"):
@@ -740,6 +757,12 @@ class Tr:
         base, ix = e[1], e[2]
         if ix[0] == "range":
             bt, bty = self.ex(base, env, out)
+            if isinstance(bty, tuple) and bty[0] == "vec":            # &h[lo..hi] of a word array: a list of words
+                if len(ix) > 3 and ix[3] == "..=":
+                    raise TranslateError("inclusive range")
+                lo = self.ex(ix[1], env, out, "usize")[0] if ix[1] is not None else "0"
+                hi = self.ex(ix[2], env, out, "usize")[0] if ix[2] is not None else str(bty[2])
+                return (self.bind(f"lslice {self.par(bt)}.toList {self.par(lo)} {self.par(hi)}", out), ("wlist", bty[1]))
             if bty != "bytes":
                 raise TranslateError("slice of non-bytes")
             lo = self.ex(ix[1], env, out, "usize")[0] if ix[1] is not None else None
@@ -831,6 +854,11 @@ class Tr:
                 return (self.bind(f"i64chk ({self.par(lt)} {op} {self.par(rt)})", out), "i64")
             if op == "%":
                 return (self.bind(f"i64rem {self.par(lt)} {self.par(rt)}", out), "i64")
+        if isinstance(lty, tuple) and lty[0] == "nat":                     # checked arithmetic on a natural word
+            if op in ("+", "*"):
+                return (self.bind(f"wordchk {lty[1]} ({self.par(lt)} {op} {self.par(rt)})", out), lty)
+            if op == "-":
+                return (self.bind(f"usub {self.par(lt)} {self.par(rt)}", out), lty)
         if lty in WORDS and op in ("&", "|", "^"):
             sym = {"&": "&&&", "|": "|||", "^": "^^^"}[op]
             return (f"{self.par(lt)} {sym} {self.par(rt)}", lty)
@@ -994,6 +1022,8 @@ class Tr:
                     outs.append(("place", pl))
             else:
                 t, ty = self.ex(a, env, out, pty)
+                if isinstance(pty, tuple) and pty[0] == "wlist" and isinstance(ty, tuple) and ty[0] == "vec" and ty[1] == pty[1]:
+                    t, ty = f"{self.par(t)}.toList", pty              # `&[uN; k]` coerces to `&[uN]`
                 if ty != pty:
                     raise TranslateError(f"argument type {ty} for {pty}")
                 texts.append(self.par(t))
@@ -1041,7 +1071,8 @@ class Tr:
             if not isinstance(e, tuple):
                 return
             if e[0] == "method":
-                add(root(e[1]))
+                if e[2] not in ("len", "is_empty", "wrapping_add"):     # (read-only methods of the supported subset)
+                    add(root(e[1]))
                 for a in e[3]:
                     walk_e(a)
                 walk_e(e[1])
